@@ -14,8 +14,8 @@ Rec == ndJsonDeserialize(IOEnv.TRACE)
 Cfg == JsonDeserialize(IOEnv.CFG)
 Devs == {Cfg.devs[i] : i \in DOMAIN Cfg.devs}
 
-VARIABLES l, persisted, queue, upfail, used
-tvars == <<l, persisted, queue, upfail, used>>
+VARIABLES l, persisted, queue, upfail, strat, seen, used
+tvars == <<l, persisted, queue, upfail, strat, seen, used>>
 E == Rec[l]
 
 Success(cls) == cls \in {"ok", "value"}
@@ -25,19 +25,22 @@ Proj(db) == [id |-> db.id, strategy |-> db.strategy,
              keys |-> [k \in {j \in DOMAIN db.keys : db.keys[j][3] # "Deleted"} |->
                          <<db.keys[k][1], db.keys[k][2]>>]]
 
-TraceInit == l = 1 /\ persisted = <<>> /\ queue = {} /\ upfail = FALSE /\ used = {} /\ TLCSet(1, 0)
+TraceInit == l = 1 /\ persisted = <<>> /\ queue = {} /\ upfail = FALSE /\ strat = "disk" /\ seen = {} /\ used = {} /\ TLCSet(1, 0)
 
+(* the storage strategy of the run (C18 cases carry it; everything else runs on disk) *)
+StratOf(e) == IF "meta" \in DOMAIN e THEN (IF "s3" \in DOMAIN e.meta THEN e.meta.s3 ELSE "disk") ELSE "disk"
 Reset == /\ E.ev = "reset" /\ persisted' = <<>> /\ queue' = {} /\ upfail' = FALSE /\ used' = {}
+         /\ strat' = StratOf(E) /\ seen' = {}
          /\ ((used # {}) => PrintT(<<"USED", Rec[l-1].run, used>>))
 
 SnapshotCmd ==
   /\ E.ev = "cmd" /\ E.op = "snapshot" /\ Success(E.cls)
   /\ queue' = queue \cup {E.names[i] : i \in DOMAIN E.names}
-  /\ UNCHANGED <<persisted, upfail, used>>
+  /\ UNCHANGED <<persisted, upfail, strat, seen, used>>
 
 OtherCmd ==
   /\ E.ev \in {"cmd", "close"} /\ ~(E.op = "snapshot" /\ Success(E.cls))
-  /\ UNCHANGED <<persisted, queue, upfail, used>>
+  /\ UNCHANGED <<persisted, queue, upfail, strat, seen, used>>
 
 TickDone ==
   /\ E.ev = "tick" /\ E.cls = "ok"
@@ -45,7 +48,9 @@ TickDone ==
                      IF d \in queue THEN Proj(E.dbs[d]) ELSE persisted[d]]
   /\ queue' = {}
   /\ upfail' = (upfail \/ E.putfail)
-  /\ UNCHANGED used
+  \* every (key, value, version) a snapshot run wrote out (what a stale object can contain)
+  /\ seen' = seen \cup UNION {{<<d, k, Proj(E.dbs[d]).keys[k]>> : k \in DOMAIN Proj(E.dbs[d]).keys} : d \in (queue \cap DOMAIN E.dbs)}
+  /\ UNCHANGED <<strat, used>>
 
 (* C18: an upload that still fails after the retries is reported (the snapshot run ends *)
 (* with a panic); nothing is considered persisted by it                                 *)
@@ -54,7 +59,7 @@ TickFailed ==
   \* (the panic poisons the snapshot queue lock: every later snapshot run of this process fails too)
   /\ "S3" \in {Cfg.checks[i] : i \in DOMAIN Cfg.checks} /\ (E.putfail \/ upfail)
   /\ queue' = {} /\ upfail' = TRUE
-  /\ UNCHANGED <<persisted, used>>
+  /\ UNCHANGED <<persisted, strat, seen, used>>
 
 RestoredExactly == \A d \in DOMAIN persisted : d \in DOMAIN E.dbs /\ Proj(E.dbs[d]) = persisted[d]
 
@@ -62,7 +67,7 @@ RestartOK ==
   /\ E.ev = "restart" /\ E.cls = "ok"
   /\ RestoredExactly = TRUE
   /\ queue' = {}
-  /\ UNCHANGED <<persisted, upfail, used>>
+  /\ UNCHANGED <<persisted, upfail, strat, seen, used>>
 
 (* ---------------- known findings (C18) ---------------- *)
 S3On == "S3" \in {Cfg.checks[i] : i \in DOMAIN Cfg.checks}
@@ -76,7 +81,7 @@ Dev_S3MetaHardcoded ==
   /\ "Dev_S3MetaHardcoded" \in Devs /\ S3On
   /\ E.ev = "restart" /\ E.cls = "ok" /\ RestoredExactly = FALSE
   /\ (\A d \in DOMAIN persisted : d \in DOMAIN E.dbs /\ KeysSame(d) /\ (Proj(E.dbs[d]) = persisted[d] \/ MetaHard(d))) = TRUE
-  /\ queue' = {} /\ UNCHANGED <<persisted, upfail>>
+  /\ queue' = {} /\ UNCHANGED <<persisted, upfail, strat, seen>>
   /\ used' = used \cup {"Dev_S3MetaHardcoded"}
 
 (* strategy s3: an incremental snapshot replaces both objects with only the changed keys: *)
@@ -88,19 +93,35 @@ Dev_S3IncrementalReplaces ==
   /\ (\A d \in DOMAIN persisted : d \in DOMAIN E.dbs /\ SubsetKeys(d)
                                     /\ ((Proj(E.dbs[d]).id = persisted[d].id /\ Proj(E.dbs[d]).strategy = persisted[d].strategy)
                                         \/ MetaHard(d))) = TRUE
-  /\ queue' = {} /\ UNCHANGED <<persisted, upfail>>
+  /\ queue' = {} /\ UNCHANGED <<persisted, upfail, strat, seen>>
   /\ used' = used \cup {"Dev_S3IncrementalReplaces"}
 
 (* strategy s3: a failed PutObject is ignored: the snapshot completes, the data is not there *)
+(* (the partitioned strategy retries a failed upload and panics when it keeps failing)      *)
 Dev_S3PutFailureSilent ==
-  /\ "Dev_S3PutFailureSilent" \in Devs /\ S3On /\ upfail
+  /\ "Dev_S3PutFailureSilent" \in Devs /\ S3On /\ upfail /\ strat = "s3"
   /\ E.ev = "restart" /\ E.cls = "ok" /\ RestoredExactly = FALSE
-  /\ (\A d \in DOMAIN persisted : d \in DOMAIN E.dbs => SubsetKeys(d)) = TRUE
-  /\ queue' = {} /\ UNCHANGED <<persisted, upfail>>
+  \* missing or stale: every restored key has a value and version that some snapshot run wrote
+  /\ (\A d \in DOMAIN persisted : d \in DOMAIN E.dbs =>
+         \A k \in DOMAIN Proj(E.dbs[d]).keys : <<d, k, Proj(E.dbs[d]).keys[k]>> \in seen) = TRUE
+  /\ queue' = {} /\ UNCHANGED <<persisted, upfail, strat, seen>>
   /\ used' = used \cup {"Dev_S3PutFailureSilent"}
 
+(* the same finding, other manifestation: strategy s3 stores a database as two objects (keys,   *)
+(* values); when exactly one of the two uploads failed silently the pair no longer fits and the *)
+(* loader gives up at the next start: the run ends there                                        *)
+Dev_S3PutFailureSilent_NoStart ==
+  /\ "Dev_S3PutFailureSilent" \in Devs /\ S3On /\ upfail /\ strat = "s3"
+  /\ E.ev = "restart" /\ E.cls # "ok"
+  /\ queue' = {} /\ UNCHANGED <<persisted, upfail, strat, seen>>
+  /\ used' = used \cup {"Dev_S3PutFailureSilent"}
+Abandoned ==
+  /\ E.ev = "abandon" /\ "Dev_S3PutFailureSilent" \in used
+  /\ UNCHANGED <<persisted, queue, upfail, strat, seen, used>>
+
 TraceNext == l <= Len(Rec) /\ l' = l + 1 /\ (Reset \/ SnapshotCmd \/ OtherCmd \/ TickDone \/ TickFailed \/ RestartOK
-              \/ Dev_S3MetaHardcoded \/ Dev_S3IncrementalReplaces \/ Dev_S3PutFailureSilent)
+              \/ Dev_S3MetaHardcoded \/ Dev_S3IncrementalReplaces \/ Dev_S3PutFailureSilent
+              \/ Dev_S3PutFailureSilent_NoStart \/ Abandoned)
 TraceSpec == TraceInit /\ [][TraceNext]_tvars
 
 Progress ==
